@@ -402,6 +402,7 @@ func (x *Exec) applyContract(st *State, fi int, ct *Contract, callee *ssa.Functi
 	}
 	preHeap := copyHeap(st.heap)
 	preEpoch, preNow := st.epoch, st.now
+	prePC := append([]Term(nil), st.pc...)
 
 	finish := func(st2 *State, panicked bool) {
 		// havoc the frame
@@ -539,7 +540,7 @@ func (x *Exec) applyContract(st *State, fi int, ct *Contract, callee *ssa.Functi
 			}
 		}
 		if len(ct.Ensures) > 0 && fi == 0 && x.muted == 0 {
-			x.reachOnce(st2, "after "+anchor)
+			x.reachOnce(st2, "after "+anchor, prePC)
 		}
 		k(st2, res)
 	}
